@@ -25,22 +25,26 @@ RULE = ("kinds: eval (prediction matrices up to 5x6, mostly short dyadic values,
         "prediction is a table of (sample id, treatment ids)) through generate_full_combinatoric_space / correlation_matrix. "
         "Non-trivial: at least one experiment and one theta / one row; distinct by canonical case description.")
 THEOREMS = {
-    "C20_mse_def": "mse = (1/(n*m)) * sum over all (experiment i, posterior sample j) of (P[i][j]-o[i])^2, all shapes n,m >= 1; NaN guard otherwise",
-    "C20_mse_variance_def": "mse_variance = population variance ACROSS EXPERIMENTS of the per-experiment mean squared error (ddof 0)",
-    "C20_inter_chain_def": "inter_chain_mse_variance = population variance over the distinct chain ids of the per-chain MSE (any labelling, unequal lengths)",
+    "C20_mse_def": "mse = (1/(n*m)) * sum over all (experiment i, posterior sample j) of (P[i][j]-o[i])^2 for every accepted evaluation, n,m >= 1; NaN (Err) when n = 0 or m = 0",
+    "C20_mse_variance_def": "mse_variance = population variance (ddof 0) ACROSS EXPERIMENTS of the per-experiment mean squared error",
+    "C20_inter_chain_def": "inter_chain_mse_variance = population variance over the distinct chain ids of the per-chain MSE (any labelling: unequal lengths, interleaved, non-contiguous)",
     "C20_inter_chain_one_chain": "one chain => inter-chain variance 0",
     "C20_mean_predictions_def": "mean_predictions[i] = (1/m) * sum_j P[i][j]",
     "C20_eval_save_load": "load_h5(save_h5(e)) = e for every evaluation with >= 1 experiment",
-    "C20_eval_save_load_empty_refuted": "an evaluation with 0 experiments saves but does not load (TypeError): the round trip fails there",
-    "C20_calculate_mse_def": "calculate_mse = (1/n) * sum_i ((1/T) * sum_theta p[theta][i] - o[i])^2",
-    "C20_single_effect_def": "the effect dict holds, for every sample s and id t occurring in the arrays, 1 if t is control, else the mean of the observations of s's rows in which t occurs and every other column is control; no entry if there is none (ids >= -1, arity >= 2)",
+    "C20_eval_save_load_empty_refuted": "REFUTED clause: an evaluation with 0 experiments (accepted by the constructor) saves but does not load (TypeError)",
+    "C20_calculate_mse_def": "calculate_mse = (1/n) * sum_i ((1/T) * sum_theta p[theta][i] - o[i])^2; NaN when T = 0 or n = 0",
+    "C20_single_effect_def": "effect dict: for every sample s and id t occurring in the arrays, 1 if t is control, else the mean of the observations of s's rows in which t occurs and every other column is control; no entry if there is none; no other entries (ids >= -1, arity >= 2, any column)",
+    "C20_effect_map_rejects": "arity < 2 -> ValueError; mask/array length mismatch -> IndexError",
     "C20_effect_array_def": "effect array entry (i,j) = that effect of (sample_i, id_ij); KeyError iff some entry has none",
     "C20_synergy_def": "calculate_synergy = for every row that is not a single-agent row, in order: (sample, non-control ids, product over all columns of the single effects - observation); rows lacking a single-agent measurement skipped, Err in strict mode; ragged id rows refused",
+    "C20_combs_every_subset_once": "itertools.combinations(rows, k) = the rows at every strictly increasing k-tuple of positions, each exactly once",
+    "C20_space_all_combinations": "the space's id rows are the ids, looked up in the screen's own mapping, of every arity-combination of mapping rows; its sample id is the requested one",
     "C20_corr_symmetric": "correlation matrix entry (i,j) = entry (j,i), for ANY sqrt oracle",
-    "C20_corr_unit_diag": "under sqrt x * sqrt x = x (x >= 0): diagonal entry i is 1 when sample i's average predictions differ somewhere from the across-sample mean, NaN (None) otherwise",
-    "C20_corr_unit_diag_nonconstant_rows_refuted": "a non-constant row is NOT enough for a unit diagonal: the code centres on the across-sample mean, a single sample gives NaN",
-    "C20_corr_entry_def": "entry (i,j) = sum_k X[i][k]*X[j][k] / (sqrt S_i * sqrt S_j) with X = P - column mean, P[s][c] = average over thetas of the prediction for combination c of the space",
-    "C20_space_all_combinations": "the space's id rows are the ids of every strictly increasing arity-tuple of mapping row positions, each exactly once, in lexicographic order, looked up in the screen's own mapping",
+    "C20_corr_unit_diag": "diagonal entry i is 1 when sample i's average predictions differ somewhere from the across-sample mean (S_i != 0), given sqrt(S_i)^2 = S_i (pointwise hypothesis; the global one has no rational model)",
+    "C20_corr_nan_diag": "diagonal entry i is NaN (None) when S_i = 0",
+    "C20_corr_unit_diag_nonconstant_rows_refuted": "REFUTED clause: a non-constant row is not enough for a unit diagonal; the code centres on the across-sample mean, a single sample gives NaN",
+    "C20_corr_entry_def": "entry (i,j) = sum_k X[i][k]*X[j][k] / (sqrt S_i * sqrt S_j) with X = P - column mean; NaN when S_i or S_j = 0",
+    "C20_corr_over_full_space": "the matrix is corr_of the average (over thetas) predictions at every combination of the full space, one row per distinct sample id in increasing order",
 }
 ASSUMPTIONS = [
     "floating point rounding is not modelled: the model computes the real-number value over exact rationals; comparison tolerance 1e-9",
@@ -53,8 +57,16 @@ ASSUMPTIONS = [
 EXPLANATION = ("Model: Model/Metrics.v, Model/Synergy.v, Model/Corr.v; definitions (loop form) in Proofs/C20Spec.v. "
                "NaN results of numpy (mean of an empty array, 0/0) are explicit Err 6 / None in the model. Observed on the unchanged tree: "
                "an evaluation with zero experiments saves but raises TypeError on load (np.char.encode of an empty array is float64); "
-               "the correlation matrix of a single-sample screen (or of samples with identical average predictions) is NaN. "
+               "the correlation matrix of a single-sample screen (or of samples with identical average predictions) is NaN; where a "
+               "sample's average predictions equal the across-sample mean only up to rounding, the implementation returns normalised rounding "
+               "noise instead of NaN (such entries, 0/0 over the reals, are not compared; feature fp-noise-where-undefined). "
                "Not modelled: the CLI wrappers, predict_* other than predict_viability_avg.")
+
+# The literal clause "an evaluation file reloads unchanged" fails for the evaluation with zero experiments
+# (Props C20_eval_save_load_empty_refuted).  True: pred reports it (signature SIG_EMPTY_RELOAD, for
+# KNOWN_FINDINGS.json); False: it is only tagged as a feature.
+REPORT_EMPTY_EVAL_RELOAD = True
+SIG_EMPTY_RELOAD = "evalio:empty-evaluation-does-not-reload"
 
 TAGS = {1: "ValueError", 2: "TypeError", 4: "IndexError", 5: "KeyError"}
 NAN = "nan"
@@ -283,8 +295,17 @@ def _gen_remap(rng):
                 rkeys=[rng.randint(0, 9) for _ in range(12)], skeys=[rng.randint(0, 9) for _ in range(6)])
 
 
+# the vm_compute witnesses of the two *_refuted theorems, replayed on the implementation in every run
+WITNESS_EMPTY_EVAL = dict(kind="evalio", m=2, preds=[], obs=[], chains=[0, 0], names=[], chain_mode="one")
+WITNESS_SINGLE_SAMPLE_CORR = dict(kind="corr", arity=2, names=[["a", "b"], ["a", "c"]], doses=[[1.0, 1.0], [1.0, 1.0]],
+                                  samples=["s1", "s1"], nthetas=1, mode="random", remap=None,
+                                  A=[[0, 0, 0, 0]] * 3, B=[[0, 0, 1, 2, 3, 4, 5, 6, 7]] * 4)
+
+
 def gen(rng, tier):
     k = 1 if tier == "quick" else 12
+    yield WITNESS_EMPTY_EVAL
+    yield WITNESS_SINGLE_SAMPLE_CORR
     for _ in range(170 * k):
         yield _gen_eval(rng, "eval")
     for _ in range(40 * k):
@@ -497,6 +518,8 @@ def _run_eval_io(desc, mk, wire, feats, n, m):
             pred = "evaluation with %d experiment(s) does not reload: %r" % (n, e2)
         else:
             feats.append("empty-eval-reload-raises")
+            if REPORT_EMPTY_EVAL_RELOAD:
+                pred = "evaluation with 0 experiments was saved but does not reload: %r" % (e2,)
     else:
         impl = [e2.predictions.tolist(), e2.observations.tolist(), [int(x) for x in e2.chain_ids], [str(x) for x in e2.sample_names]]
         same = (e2.predictions.shape == e.predictions.shape and e2.predictions.dtype == e.predictions.dtype
@@ -886,6 +909,7 @@ def _run_corr(desc):
     if sum(1 for r in mapping if r[1] == -1) >= 2:
         feats.append("several-control-rows")
     pred = None
+    deg = set()  # rows whose similarity is undefined over the reals (exact S_i = 0)
     if isinstance(out, ImplError):
         impl = out
         if a <= nmap:
@@ -918,12 +942,15 @@ def _run_corr(desc):
             S = [sum((x * x for x in X[i]), Fraction(0)) for i in range(n)]
             if any(s == 0 for s in S):
                 feats.append("nan-degenerate")
+            deg.update(i for i in range(n) if S[i] == 0)
             for i in range(n):
                 for j in range(n):
                     g = impl[1][i][j]
                     if S[i] == 0 or S[j] == 0:
-                        if g is not None:
-                            pred = "entry (%d,%d) is %r although the similarity is undefined (0/0)" % (i, j, g)
+                        # the similarity is 0/0 over the reals; in floating point the implementation yields NaN
+                        # when the deviations cancel exactly and normalised rounding noise otherwise
+                        if g is not None and "fp-noise-where-undefined" not in feats:
+                            feats.append("fp-noise-where-undefined")
                         continue
                     w = float(sum((X[i][k] * X[j][k] for k in range(ncol)), Fraction(0))) / (math.sqrt(S[i]) * math.sqrt(S[j]))
                     if g is None or not _near(g, w):
@@ -947,6 +974,8 @@ def _run_corr(desc):
                 if len(a_) != len(b_):
                     return "matrix row sizes differ"
                 for c, (x, y) in enumerate(zip(a_, b_)):
+                    if x == [] and y is not None and (r in deg or c in deg):
+                        continue  # 0/0 over the reals, rounding noise in floating point
                     if (x == []) != (y is None):
                         return "entry (%d,%d): model %s impl %r (NaN mismatch)" % (r, c, short(x), y)
                     if y is not None and not common.close(x[0], y, TOL):
@@ -999,4 +1028,6 @@ def shrink(desc):
 
 
 def signature(desc, res):
+    if desc.get("kind") == "evalio" and not desc.get("preds") and (res.get("pred") or "").startswith("evaluation with 0 experiments"):
+        return SIG_EMPTY_RELOAD
     return "%s:%s" % (desc.get("kind"), (res.get("pred") or res.get("disagree") or "")[:40])
